@@ -20,7 +20,7 @@ RULE = ("case = (accepted tree, fault kind, fault position); trees: GenTree.tla 
         "(seeded sample); non-trivial = >= 3 objects; distinct by JSON")
 
 VALUE = {"widget": 'toolTip: "w%d"', "menu": 'title: "m%d"', "tab": 'toolTip: "t%d"', "layout": "spacing: %d", "spacer": "orientation: Qt.Vertical", "action": 'text: "a%d"'}
-FAULTS = ["unknown_prop", "illtyped", "duplicate", "unknown_attached", "dup_attached", "unknown_type", "non_object_type"]
+FAULTS = ["unknown_prop", "illtyped", "duplicate", "unknown_attached", "dup_attached", "unknown_type", "non_object_type", "unconsumed_attached", "nonobject_pointer"]
 
 
 def decorate(t):
@@ -80,6 +80,23 @@ def plant(t, extra, node, parent, fault):
             return None
         fextra[id(fn)].append(att[0])
         return ft, fextra, t, rextra, "QLayout"
+    if fault == "unconsumed_attached":
+        # an attached binding the parent never evaluates (ill typed on top): reported by the final sweep, no effect on the form
+        if parent is None or fn["sep"]:
+            return None
+        pk = T.kind(parent["cls"])
+        line = 'QTabWidget.title: 1' if pk != "tab" else None
+        if pk != "layout":
+            line = ['QLayout.row: "top"', 'QLayout.columnStretch: "wide"', "QTabWidget.title: 1"][pos % 3] if pk != "tab" else 'QLayout.row: "top"'
+        fextra[id(fn)].append(line)
+        return ft, fextra, t, rextra, line.split(":")[0].split(".")[0]
+    if fault == "nonobject_pointer":
+        # a constant that is not an object reference bound to a pointer-valued property
+        if fn["cls"] not in ("QLabel", "Label1"):
+            return None
+        line = ['buddy: "n%d"' % pos, "buddy: 0", "buddy: Qt.AlignLeft", 'buddy: ["x"]', "buddy: 1.5", "buddy: true"][pos % 6]
+        fextra[id(fn)].append(line)
+        return ft, fextra, t, rextra, "buddy"
     if fault in ("unknown_type", "non_object_type"):
         if parent is None:
             return None
@@ -183,6 +200,10 @@ def run(chk):
         i, t, oid, fault, ft, fextra, rt, rextra, marker = c
         fr, rr = out["f%d" % i]["omit"], out["r%d" % i]["omit"]
         chk.count({"t": T.strip_private(t), "o": oid, "f": fault}, nontrivial=len(T.nodes(t)) >= 3)
+        if (fr.get("panic") or fr.get("timeout") or fr.get("crash")) and not (rr.get("panic") or rr.get("timeout") or rr.get("crash")):
+            chk.violation("no form in preview mode for a document with a %s fault at %s: the translation dies (%s)" % (fault, oid, str(fr.get("panic") or fr.get("timeout") or fr.get("crash"))[:120]),
+                          {"qml": render_faulted(ft, fextra), "died": fr})
+            continue
         if any(x.get("panic") or x.get("timeout") or x.get("crash") for x in (fr, rr)):
             continue
         fq, rq = render_faulted(ft, fextra), T.document(rt, rextra)
